@@ -538,7 +538,11 @@ func (r *Runner) Run(sc *Scenario, cfg Config, h []Event) *Exec {
 		}
 	}
 	for _, op := range sc.Init {
-		if err := x.edit(x.Reps[0], op); err != nil {
+		nb := len(x.Reps[0].Doc.CreateChangePack().Changes)
+		cpb := x.Reps[0].Doc.Checkpoint().ServerSeq
+		err := x.edit(x.Reps[0], op)
+		x.recordCreated(x.Reps[0], nb, cpb)
+		if err != nil {
 			x.violate("setup", "setup-edit:"+op, err.Error())
 			x.Aborted = true
 			return x
